@@ -315,3 +315,27 @@ package sql
 //@ effect[C13:parts-of-the-version-read] every sms.partRepository.FindPartsByObjectIdOrderBySequenceNumberAsc(_, $t, $id)
 //@     needs before sms.objectRepository.FindObjectByBucketNameAndKeyAndVersionID(_, _, _, _, _) -> ($e, _)
 //@     where $t == tx && $e != nil && $id == *$e.Id
+
+// C08. Which parts may be deleted from their store is decided by the registry alone. Removing part rows releases one
+// reference per removed row; only the parts whose count the registry reports as having reached zero lose their dedup
+// entry, and aborting an upload reports as unreferenced exactly what that removal returned - never the upload's whole
+// part list (a staged part may be shared with a committed object).
+//@ func (*sqlMetadataStore).removePartEntities
+//@ property C08
+//@ mode effects
+//@ effect[C08:dedup-entries-dropped-only-for-released-parts] every sms.partDedupIndexRepository.DeleteByPartIds(_, $t, $ids)
+//@     needs before sms.partRegistryRepository.RemoveReferences(_, $t2, _) -> ($z, $e)
+//@     where $t == tx && $t2 == tx && $e == nil && same($ids, $z)
+//@ effect[C08:references-released-for-the-removed-rows] every sms.partRegistryRepository.RemoveReferences(_, _, $refs)
+//@     needs before refsForEntities($es) -> ($r) where same($es, entities) && same($refs, $r)
+
+//@ func (*sqlMetadataStore).AbortMultipartUpload
+//@ property C08
+//@ mode effects
+//@ trust nonnil bucket.Repository.ExistsBucketByName
+//@ effect[C08:abort-reports-only-what-the-registry-released] every returns() if err == nil
+//@     needs before sms.removePartRowsByObjectId(_, $t, _) -> ($ps, $rerr)
+//@     where $t == tx && $rerr == nil && result != nil && same(result.UnreferencedParts, $ps)
+//@ effect[C08:abort-removes-the-rows-of-the-upload] every sms.removePartRowsByObjectId(_, _, $id)
+//@     needs before sms.objectRepository.FindObjectByBucketNameAndKeyAndUploadId(_, _, $b, $k, $u) -> ($e, _)
+//@     where $e != nil && $id == *$e.Id && $b == bucketName && $k == key && $u == uploadId
